@@ -38,6 +38,7 @@ type R struct {
 	Variant string
 	Tier    string
 	Seed    uint64
+	Index   int // run index within the batch (enumerated dimensions are derived from it)
 	Sim     *vsimrt.Sim
 
 	mu      sync.Mutex // real lock: harness state is invisible to the scheduler but visible to the race detector
@@ -218,9 +219,9 @@ type execOpts struct {
 }
 
 // execute runs one workload once inside a fresh synctest bubble.
-func execute(t *testing.T, w *Workload, tier string, seed uint64, o execOpts) (res Result) {
+func execute(t *testing.T, w *Workload, tier string, seed uint64, index int, o execOpts) (res Result) {
 	res = Result{Prop: w.Prop, Variant: w.Variant, Seed: seed}
-	r := &R{Prop: w.Prop, Variant: w.Variant, Tier: tier, Seed: seed, counts: map[string]int{}}
+	r := &R{Prop: w.Prop, Variant: w.Variant, Tier: tier, Seed: seed, Index: index, counts: map[string]int{}}
 	var reason string
 	func() {
 		defer func() {
